@@ -20,7 +20,7 @@ KINDS = {
     # no value-changing narrowing cast / wrapping arithmetic in exponent bookkeeping
     "C07": lambda k: k.startswith(("cast-value-preserving", "assert:overflow", "arith-no-wrap", "unmodelled-call", "fixpoint-not-reached")),
     "C06": lambda k: k.startswith(("post:", "unmodelled-call", "fixpoint-not-reached")),
-    "C12": lambda k: k.startswith(("assert:overflow", "arith-no-wrap", "cast-value-preserving", "vector-invariant", "raw-", "ptr-offset", "precondition of")),
+    "C12": lambda k: k.startswith(("assert:overflow", "arith-no-wrap", "cast-value-preserving", "vector-invariant", "raw-", "ptr-offset", "precondition of", "post:hi64")),
     "C18": lambda k: k.startswith(("assert:", "panic", "post:")),
     "C11": lambda k: k.startswith(("post:", "assert:", "panic", "carry-test", "scale-consumed", "wrap-free")),
     "C14": lambda k: k.startswith(("pow-no-overflow",)),
